@@ -38,9 +38,14 @@ def showOpt : Option (List Nat) → String
 
 def infoSites : List String := ["title", "author", "subject", "keywords", "creator", "producer"]
 
+/-- sites already writing through `Object::text_string` / `text_string_bytes` in /repo (one repair per
+site group; a site not listed still uses the old carrier) -/
+def repaired : List String := []
+
 def carrierOf (site : String) : Option Carrier :=
-  if infoSites.contains site || ["outline", "annot", "field", "fielddv", "fillw"].contains site then some .lit8
-  else if site == "ifill" then some .hex8
+  if infoSites.contains site || ["outline", "annot", "field", "fielddv", "fillw"].contains site then
+    some (if repaired.contains site then .txt else .lit8)
+  else if site == "ifill" then some (if repaired.contains site then .txtHex else .hex8)
   else if site == "note" || site == "noteupd" then some .hex16
   else none
 
@@ -141,14 +146,12 @@ def handle (req impl : String) : String × String :=
                   if libOk && specOk then "ok" else
                   let who := if !libOk && !specOk then "both" else if !libOk then "library" else "independent-reader"
                   let cls :=
-                    if k == .hex16 then "unexpected"
+                    if k == .hex16 || k == .txt || k == .txtHex then "unexpected"
                     else if s.any (· ≥ 0x80) then "utf8-bytes-in-text-string"
                     else if s.any (fun c => 0x18 ≤ c && c ≤ 0x1F) then "c0-read-as-accent"
-                    else if k == .lit8 && s.contains 0x0D then "raw-cr-read-as-lf"
                     else "unexpected"
                   let cls := if (cls == "utf8-bytes-in-text-string" && who == "both") ||
-                                (cls == "c0-read-as-accent" && who == "independent-reader") ||
-                                (cls == "raw-cr-read-as-lf" && who == "independent-reader") then cls
+                                (cls == "c0-read-as-accent" && who == "independent-reader") then cls
                              else if cls.startsWith "unexpected" then cls else "unexpected:" ++ cls
                   s!"fail:{site} {cls} {who}"
           (model, oracle)
